@@ -263,7 +263,12 @@ def string_to_bytes(text, unit_system='IEC', return_int=False):
     else:
         res = magnitude * pow(base, UNIT_PREFIX_EXPONENT[unit_prefix])
     if return_int:
-        return int(math.ceil(res))
+        try:
+            return int(math.ceil(res))
+        except OverflowError:
+            # the quantity does not fit a float: math.ceil(inf)
+            msg = _('Value is too large: %s') % text
+            raise ValueError(msg)
     return res
 
 
